@@ -738,7 +738,7 @@ pub fn sink_summary(ex: &ProgExec) -> (u64, u64) {
 
 // ---------------------------------------------------------------- C16
 
-fn child_boxes(entry: &[u8], fixed: usize) -> Vec<([u8; 4], &[u8])> {
+pub fn child_boxes(entry: &[u8], fixed: usize) -> Vec<([u8; 4], &[u8])> {
     // children of a sample entry: after 8-byte header + `fixed` bytes
     let mut out = Vec::new();
     let mut pos = 8 + fixed;
@@ -773,6 +773,44 @@ fn first_parameter_sets(codec: VCodec, data: &[u8]) -> Vec<(u8, Vec<u8>)> {
         }
     }
     out
+}
+
+/// Do the 16-bit SPS / PPS length fields of an avcC payload add up to the record exactly?
+pub fn avcc_tiles(c: &[u8]) -> bool {
+    if c.len() < 8 {
+        return false;
+    }
+    let sl = u16::from_be_bytes([c[6], c[7]]) as usize;
+    if c.len() < 8 + sl + 3 {
+        return false;
+    }
+    let pl = u16::from_be_bytes([c[9 + sl], c[10 + sl]]) as usize;
+    c.len() == 11 + sl + pl
+}
+
+/// Do the array and NAL-unit length fields of an hvcC payload add up to the record exactly?
+pub fn hvcc_tiles(c: &[u8]) -> bool {
+    if c.len() < 23 {
+        return false;
+    }
+    let mut pos = 23;
+    for _ in 0..c[22] {
+        if pos + 3 > c.len() {
+            return false;
+        }
+        let nn = u16::from_be_bytes([c[pos + 1], c[pos + 2]]);
+        pos += 3;
+        for _ in 0..nn {
+            if pos + 2 > c.len() {
+                return false;
+            }
+            pos += 2 + u16::from_be_bytes([c[pos], c[pos + 1]]) as usize;
+            if pos > c.len() {
+                return false;
+            }
+        }
+    }
+    pos == c.len()
 }
 
 pub fn c16_numeric(prop: &'static str, case: &ProgCase, lm: &LogicalMovie, bytes: &[u8]) -> Vec<Violation> {
@@ -894,46 +932,14 @@ pub fn c16_numeric(prop: &'static str, case: &ProgCase, lm: &LogicalMovie, bytes
         {
             let kids = child_boxes(&t.stsd_entry, 78);
             if let Some((_, c)) = kids.iter().find(|(t, _)| t == b"avcC") {
-                let ok = (|| -> bool {
-                    if c.len() < 8 {
-                        return false;
-                    }
-                    let sl = u16::from_be_bytes([c[6], c[7]]) as usize;
-                    if c.len() < 8 + sl + 3 {
-                        return false;
-                    }
-                    let pl = u16::from_be_bytes([c[9 + sl], c[10 + sl]]) as usize;
-                    c.len() == 11 + sl + pl
-                })();
+                let ok = avcc_tiles(c);
                 if !ok {
                     out.push(v(prop, "parameter-set-length", "avcC:does-not-tile", format!("avcC ({} bytes): the declared SPS/PPS lengths do not add up to the record", c.len())));
                     return out;
                 }
             }
             if let Some((_, c)) = kids.iter().find(|(t, _)| t == b"hvcC") {
-                let ok = (|| -> bool {
-                    if c.len() < 23 {
-                        return false;
-                    }
-                    let mut pos = 23;
-                    for _ in 0..c[22] {
-                        if pos + 3 > c.len() {
-                            return false;
-                        }
-                        let nn = u16::from_be_bytes([c[pos + 1], c[pos + 2]]);
-                        pos += 3;
-                        for _ in 0..nn {
-                            if pos + 2 > c.len() {
-                                return false;
-                            }
-                            pos += 2 + u16::from_be_bytes([c[pos], c[pos + 1]]) as usize;
-                            if pos > c.len() {
-                                return false;
-                            }
-                        }
-                    }
-                    pos == c.len()
-                })();
+                let ok = hvcc_tiles(c);
                 if !ok {
                     out.push(v(prop, "parameter-set-length", "hvcC:does-not-tile", format!("hvcC ({} bytes): the declared parameter-set lengths do not add up to the record", c.len())));
                     return out;
